@@ -2,7 +2,7 @@
 
 from .. import rules_inter as RI
 
-LEVEL = "proof"
+LEVEL = "other"
 
 EXPLANATION = (
     "Abstract interpretation of ask_interactively for every supported version argument (2, 3, 3.0, 3.1, 4, 4.0, and an "
